@@ -29,6 +29,7 @@ ghost('fout', 'bytes', 'bytes written to the local destination stream (pull)')
 ghost('cb_bytes', 'int', 'sum of the byte counts reported to the progress callback')
 ghost('tctx', 'opt[real]', 'timeout of the innermost async_timeout.timeout(...) context')
 ghost('tctx_on', 'bool', 'inside an async_timeout.timeout(...) context')
+ghost('usb_kd', 'bool', 'a kernel driver is (still) bound to the interface of the open libusb handle: claimInterface would fail with BUSY')
 ghost('usb_claimed', 'opt[int]', 'interface number claimed on the open libusb handle')
 ghost('session', 'int', 'transport sessions started (incremented by transport.connect)')
 ghost('topen', 'bool', 'the transport is connected')
